@@ -81,6 +81,15 @@ impl<'a, 't> Gen<'a, 't> {
         Gen { t, g, names: Names::new(), stmt_budget: 30, max_depth: 4, decode_escapes: false }
     }
 
+    /// a count like `Tape::count`, but now and then far larger than any "typical" list (9, 17,
+    /// 33 more): whatever is written as a list can be long
+    fn cnt(&mut self, lo: usize, hi: usize) -> usize {
+        if self.t.ratio(1, 50) && self.g.want("LONG_LIST") {
+            lo + *self.t.pick(&[4usize, 9, 17, 33])
+        } else {
+            self.t.count(lo, hi)
+        }
+    }
     fn fresh(&mut self) -> Id {
         let s = self.names.fresh(&mut self.t);
         id(&s)
@@ -328,7 +337,7 @@ impl<'a, 't> Gen<'a, 't> {
         } else {
             self.t.pick(&[SizePrefix::X, SizePrefix::B, SizePrefix::W, SizePrefix::D, SizePrefix::L]).clone()
         };
-        let n = 1 + self.t.count(0, 2);
+        let n = 1 + self.cnt(0, 2);
         let mut address = Vec::new();
         for _ in 0..n {
             let v = if self.t.ratio(1, 3) && self.g.want("ADDRESS_MULTI_DIGIT") {
@@ -355,7 +364,7 @@ impl<'a, 't> Gen<'a, 't> {
         EnumeratedValue { type_name, value: self.name() }
     }
     fn enum_values(&mut self) -> Vec<EnumeratedValue> {
-        let n = 1 + self.t.count(0, 4);
+        let n = 1 + self.cnt(0, 4);
         (0..n).map(|_| self.enum_value()).collect()
     }
     fn subrange(&mut self) -> Subrange {
@@ -370,7 +379,7 @@ impl<'a, 't> Gen<'a, 't> {
         })
     }
     fn array_spec(&mut self) -> ArraySpecificationKind {
-        let n = 1 + self.t.count(0, 2);
+        let n = 1 + self.cnt(0, 2);
         let ranges = (0..n).map(|_| self.subrange()).collect();
         let type_name = self.elem_or_ref(true);
         ArraySpecificationKind::Subranges(ArraySubranges { ranges, type_name })
@@ -398,11 +407,11 @@ impl<'a, 't> Gen<'a, 't> {
         if !self.g.want("C10_ARRAY_INITIAL_VALUES") {
             return vec![];
         }
-        let n = 1 + self.t.count(0, 4);
+        let n = 1 + self.cnt(0, 4);
         (0..n).map(|_| self.array_init_elem(0)).collect()
     }
     fn struct_init(&mut self, depth: usize) -> Vec<StructureElementInit> {
-        let n = 1 + self.t.count(0, 3);
+        let n = 1 + self.cnt(0, 3);
         (0..n)
             .map(|_| {
                 let name = self.name();
@@ -562,7 +571,7 @@ impl<'a, 't> Gen<'a, 't> {
                 DataTypeDeclarationKind::Array(ArrayDeclaration { type_name: name, spec, init })
             }
             5 => {
-                let n = 1 + self.t.count(0, 4);
+                let n = 1 + self.cnt(0, 4);
                 let elements = (0..n)
                     .map(|_| StructureElementDeclaration { name: self.name(), init: self.struct_elem_init() })
                     .collect();
@@ -590,7 +599,7 @@ impl<'a, 't> Gen<'a, 't> {
     fn sym_var_nonbare(&mut self, depth: usize) -> SymbolicVariableKind {
         // a.b / a[i] / a.b[i].c ... : at least one selector
         let mut v = SymbolicVariableKind::Named(NamedVariable { name: self.name() });
-        let n = 1 + self.t.count(0, 2);
+        let n = 1 + self.cnt(0, 2);
         for _ in 0..n {
             if self.t.flag() {
                 v = SymbolicVariableKind::Structured(StructuredVariable { record: Box::new(v), field: self.name() });
@@ -617,7 +626,7 @@ impl<'a, 't> Gen<'a, 't> {
         }
     }
     fn params(&mut self, depth: usize) -> Vec<ParamAssignmentKind> {
-        let n = self.t.count(0, 3);
+        let n = self.cnt(0, 3);
         (0..n)
             .map(|_| match if self.g.want("C10_NAMED_AND_OUTPUT_PARAMETERS") { self.t.below(4) } else { self.t.below(4) & 1 } {
                 0 | 1 => ParamAssignmentKind::positional(self.expr(depth + 1)),
@@ -695,7 +704,7 @@ impl<'a, 't> Gen<'a, 't> {
     // ----------------------------------------------------------- statements
     pub fn stmts(&mut self, depth: usize, min: usize) -> Vec<StmtKind> {
         let min = if min == 0 && depth > 0 && !self.g.want("C10_EMPTY_STATEMENT_LIST") { 1 } else { min };
-        let n = min + self.t.count(0, 3);
+        let n = min + self.cnt(0, 3);
         let mut v = Vec::new();
         for _ in 0..n {
             if self.stmt_budget == 0 && v.len() >= min {
@@ -733,7 +742,7 @@ impl<'a, 't> Gen<'a, 't> {
             }
             6 | 7 => {
                 let selector = self.expr(0);
-                let n = self.t.count(0, 3);
+                let n = self.cnt(0, 3);
                 let statement_groups = (0..n)
                     .map(|_| {
                         let k = if self.g.want("C10_CASE_GROUP_WITH_SEVERAL_SELECTORS") { 1 + self.t.count(0, 2) } else { 1 };
@@ -777,13 +786,13 @@ impl<'a, 't> Gen<'a, 't> {
         qualifier: DeclarationQualifier,
         mut init: impl FnMut(&mut Self) -> InitialValueAssignmentKind,
     ) {
-        let n = 1 + self.t.count(0, 3);
+        let n = 1 + self.cnt(0, 3);
         let mut i = 0;
         while i < n {
             let k = init(self);
             // a, b : T  -> the same initializer for several names
             let lists = var_type != VariableType::External;
-            let m = 1 + if lists && self.t.ratio(1, 4) { self.t.count(0, 2) } else { 0 };
+            let m = 1 + if lists && self.t.ratio(1, 4) { self.cnt(0, 2) } else { 0 };
             for _ in 0..m {
                 out.push(VarDecl {
                     identifier: VariableIdentifier::Symbol(self.fresh()),
@@ -829,7 +838,7 @@ impl<'a, 't> Gen<'a, 't> {
                     // edge inputs (function blocks only: a PROGRAM has no place for them in the AST)
                     if !in_program && self.g.want("C10_FUNCTION_BLOCK_EDGE_INPUTS") {
                         let q = self.qualifier(&[Retain, NonRetain]);
-                        let n = 1 + self.t.count(0, 2);
+                        let n = 1 + self.cnt(0, 2);
                         for _ in 0..n {
                             edges.push(EdgeVarDecl {
                                 identifier: self.fresh(),
@@ -842,7 +851,7 @@ impl<'a, 't> Gen<'a, 't> {
                 6 | 7 => {
                     // incompletely located
                     let q = self.qualifier(&[Retain, NonRetain]);
-                    let n = 1 + self.t.count(0, 2);
+                    let n = 1 + self.cnt(0, 2);
                     for _ in 0..n {
                         let init = match self.t.below(7) {
                             0 | 1 => InitialValueAssignmentKind::Simple(SimpleInitializer { type_name: self.elem_nostring().into(), initial_value: None }),
@@ -874,7 +883,7 @@ impl<'a, 't> Gen<'a, 't> {
                 _ => {
                     // located (PROGRAM only)
                     let q = self.qualifier(&[Constant, Retain, NonRetain]);
-                    let n = 1 + self.t.count(0, 2);
+                    let n = 1 + self.cnt(0, 2);
                     for _ in 0..n {
                         let name = if self.t.ratio(1, 4) { None } else { Some(self.fresh()) };
                         let type_name = self.elem_or_ref(true);
@@ -953,7 +962,7 @@ impl<'a, 't> Gen<'a, 't> {
             _ => Some(ActionQualifier::N),
         };
         let indicators = if qualifier.is_some() && self.t.ratio(1, 4) {
-            let n = 1 + self.t.count(0, 2);
+            let n = 1 + self.cnt(0, 2);
             (0..n).map(|_| self.name()).collect()
         } else {
             vec![]
@@ -1039,7 +1048,7 @@ impl<'a, 't> Gen<'a, 't> {
         let rname = self.fresh();
         let resource = self.name();
         let global_vars = self.global_vars();
-        let nt = self.t.count(0, 2);
+        let nt = self.cnt(0, 2);
         let tasks: Vec<TaskConfiguration> = (0..nt)
             .map(|_| TaskConfiguration {
                 name: self.fresh(),
@@ -1047,7 +1056,7 @@ impl<'a, 't> Gen<'a, 't> {
                 interval: if self.t.flag() && self.g.want("C10_TASK_INTERVAL") { Some(self.duration()) } else { None },
             })
             .collect();
-        let np = 1 + self.t.count(0, 2);
+        let np = 1 + self.cnt(0, 2);
         let programs = (0..np)
             .map(|_| {
                 let storage = match self.t.below(4) {
